@@ -618,6 +618,10 @@ class StorageCommitment(MessageDispatcherSCP):
             rsp.status = int(statuses.SUCCESS)
             asce.send(rsp, ctx.id)
 
+            # handler may return any iterable (or None): an exhausted iterator is still truthy
+            success = list(success or ())
+            failure = list(failure or ())
+
             report = dimsemessages.NEventReportRQMessage()
             report.sop_class_uid = ctx.sop_class
             report.affected_sop_instance_uid = instance_uid
